@@ -127,6 +127,16 @@ func main() {
 			for fk := range v.funcs {
 				if strings.Contains(fk, k) {
 					fmt.Printf("%-45s %s\n", fk, v.effectSummary(fk))
+					if os.Getenv("VCGO_FIELD") != "" {
+						for callee := range v.effects[fk].Calls {
+							if ce := v.effects[callee]; ce != nil && ce.W[os.Getenv("VCGO_FIELD")] {
+								fmt.Printf("      writes %s via %s\n", os.Getenv("VCGO_FIELD"), callee)
+							}
+						}
+						if d := v.directEffects(v.funcPkg[fk], v.funcs[fk]); d.W[os.Getenv("VCGO_FIELD")] {
+							fmt.Printf("      writes %s directly\n", os.Getenv("VCGO_FIELD"))
+						}
+					}
 					if ef := v.effects[fk]; ef != nil && len(ef.Unknown) > 0 {
 						fmt.Printf("      unknown: %v\n", sortedKeys(ef.Unknown))
 					}
